@@ -164,7 +164,7 @@ func runReload(c *sim.Ctl) {
 	r.finishCh = make(chan struct{})
 	w := r.w
 	st := r.st
-	r.two = st.Draw(5) == 4
+	r.two = st.Draw(5) == 4 && Applied("maporder") // listener order must be reproducible
 	r.faults = st.Draw(2) == 1
 	nops := 1 + st.Draw(6)
 	nclients := 2 + st.Draw(9)
